@@ -53,6 +53,11 @@ type connection struct {
 	idleTime    time.Time
 	invokeNum   int32
 	dialTimeout time.Duration
+
+	// result and end of the last failed dial: callers that were already waiting for connLock
+	// while it was in progress share its failure instead of dialing one after the other
+	lastDialErr error
+	lastDialEnd time.Time
 }
 
 // NewTarsClient new tars client and init it .
@@ -127,9 +132,14 @@ func (tc *TarsClient) GraceClose(ctx context.Context) {
 }
 
 func (c *connection) ReConnect() (err error) {
+	arrived := time.Now()
 	c.connLock.Lock()
 	defer c.connLock.Unlock()
 	if c.isClosed {
+		if c.lastDialErr != nil && arrived.Before(c.lastDialEnd) {
+			// the attempt we were queued behind has just failed: do not add another dial timeout
+			return c.lastDialErr
+		}
 		TLOG.Debug("Connect:", c.client.address, "Proto:", c.client.config.Proto)
 		if c.client.config.Proto == "ssl" {
 			dialer := &net.Dialer{Timeout: c.dialTimeout}
@@ -139,8 +149,10 @@ func (c *connection) ReConnect() (err error) {
 		}
 
 		if err != nil {
+			c.lastDialErr, c.lastDialEnd = err, time.Now()
 			return err
 		}
+		c.lastDialErr = nil
 		if c.client.config.Proto == "tcp" {
 			if c.conn != nil {
 				_ = c.conn.(*net.TCPConn).SetKeepAlive(true)
